@@ -265,83 +265,59 @@ Proof.
     intros ts0 L0. apply IH. exact L0.
 Qed.
 
-(* ---------- acceptance: every token list that spells a type is parsed to a type of that shape ---------- *)
-(* a type without its positions *)
-Inductive sty :=
-| SSimple (name : bytes)
-| SNamed (names : list bytes)
-| SArray (item : sty)
-| SStruct (fields : list (option bytes * sty)).
+(* ---------- the grammar of types, with positions: [Tr t ts K] -- the token list ts consists of the tokens of the type t followed by K,
+   and every position recorded in t is the position of the token it is documented to be.  Closing brackets are tokens of their own
+   here (see [unfuse] below for ">>"). ---------- *)
+Inductive TrPath : list ident -> toks -> toks -> Prop :=
+| TrP0 K : TrPath [] K K
+| TrPCons d i ts K ids : kis d "." = true -> kis i K_ident = true -> TrPath ids ts K -> TrPath (mk_ident i :: ids) (d :: i :: ts) K.
 
-Fixpoint shape (t : ty) : sty :=
-  match t with
-  | TSimple _ n => SSimple n
-  | TNamed ids => SNamed (map id_name ids)
-  | TArray _ _ it => SArray (shape it)
-  | TStruct _ _ fs =>
-      SStruct ((fix go (l : list (option ident * ty)) : list (option bytes * sty) :=
-                  match l with [] => [] | (oi, x) :: r => (option_map id_name oi, shape x) :: go r end) fs)
-  end.
-Definition shape_field (f : option ident * ty) : option bytes * sty := (option_map id_name (fst f), shape (snd f)).
+Inductive Tr : ty -> toks -> toks -> Prop :=
+| TrSimple t K nm : kis t K_ident = true -> simple_name t = Some nm -> Tr (TSimple (ppos t) nm) (t :: K) K
+| TrNamed t ts K ids : kis t K_ident = true -> simple_name t = None -> TrPath ids ts K -> kis (cur K) "." = false ->
+                       Tr (TNamed (mk_ident t :: ids)) (t :: ts) K
+| TrArray a lt ts g K it : kis a "ARRAY" = true -> kis lt "<" = true -> Tr it ts (g :: K) -> kis g ">" = true ->
+                           Tr (TArray (ppos a) (ppos g) it) (a :: lt :: ts) K
+| TrStruct0 s e K : kis s "STRUCT" = true -> kis e "<>" = true -> Tr (TStruct (ppos s) (ppos e + 1) []) (s :: e :: K) K
+| TrStruct1 s lt g K : kis s "STRUCT" = true -> kis lt "<" = true -> kis g ">" = true -> Tr (TStruct (ppos s) (ppos g) []) (s :: lt :: g :: K) K
+| TrStructN s lt ts ts1 g K f fs : kis s "STRUCT" = true -> kis lt "<" = true -> TrField f ts ts1 -> TrMore fs ts1 (g :: K) -> kis g ">" = true ->
+                                   Tr (TStruct (ppos s) (ppos g) (f :: fs)) (s :: lt :: ts) K
+with TrField : option ident * ty -> toks -> toks -> Prop :=
+| TrFNamed n ts K t : kis n K_ident = true -> type_start (cur ts) = true -> Tr t ts K -> TrField (Some (mk_ident n), t) (n :: ts) K
+| TrFAnon ts K t : Tr t ts K -> kis (cur ts) K_ident && type_start (cur (next ts)) = false -> TrField (None, t) ts K
+with TrMore : list (option ident * ty) -> toks -> toks -> Prop :=
+| TrM0 K : TrMore [] K K
+| TrMCons c ts ts1 K f fs : kis c "," = true -> TrField f ts ts1 -> TrMore fs ts1 K -> TrMore (f :: fs) (c :: ts) K.
 
-Lemma shape_struct a b fs : shape (TStruct a b fs) = SStruct (map shape_field fs).
-Proof.
-  cbn [shape]. f_equal. induction fs as [|[oi x] r IH]; [reflexivity|]. cbn [map]. rewrite <- IH. reflexivity.
-Qed.
-
-(* the spelling relation, on token lists in which every closing bracket is a token of its own (see [unfuse] below for ">>");
-   [Sp s ts K]: ts consists of the tokens of a type of shape s followed by K.  Tokens are constrained in kind and, for names, in
-   value; their positions are arbitrary. *)
-Inductive SpPath : list bytes -> toks -> toks -> Prop :=
-| SpP0 K : SpPath [] K K
-| SpPCons d i ts K ns : kis d "." = true -> kis i K_ident = true -> SpPath ns ts K -> SpPath (pstr i :: ns) (d :: i :: ts) K.
-
-Inductive Sp : sty -> toks -> toks -> Prop :=
-| SpSimple t K nm : kis t K_ident = true -> simple_name t = Some nm -> Sp (SSimple nm) (t :: K) K
-| SpNamed t ts K ns : kis t K_ident = true -> simple_name t = None -> SpPath ns ts K -> kis (cur K) "." = false ->
-                      Sp (SNamed (pstr t :: ns)) (t :: ts) K
-| SpArray a lt ts g K it : kis a "ARRAY" = true -> kis lt "<" = true -> Sp it ts (g :: K) -> kis g ">" = true ->
-                           Sp (SArray it) (a :: lt :: ts) K
-| SpStruct0 s e K : kis s "STRUCT" = true -> kis e "<>" = true -> Sp (SStruct []) (s :: e :: K) K
-| SpStruct1 s lt g K : kis s "STRUCT" = true -> kis lt "<" = true -> kis g ">" = true -> Sp (SStruct []) (s :: lt :: g :: K) K
-| SpStructN s lt ts ts1 g K f fs : kis s "STRUCT" = true -> kis lt "<" = true -> SpField f ts ts1 -> SpMore fs ts1 (g :: K) -> kis g ">" = true ->
-                                   Sp (SStruct (f :: fs)) (s :: lt :: ts) K
-with SpField : option bytes * sty -> toks -> toks -> Prop :=
-| SpFNamed n ts K s : kis n K_ident = true -> type_start (cur ts) = true -> Sp s ts K -> SpField (Some (pstr n), s) (n :: ts) K
-| SpFAnon ts K s : Sp s ts K -> kis (cur ts) K_ident && type_start (cur (next ts)) = false -> SpField (None, s) ts K
-with SpMore : list (option bytes * sty) -> toks -> toks -> Prop :=
-| SpM0 K : SpMore [] K K
-| SpMCons c ts ts1 K f fs : kis c "," = true -> SpField f ts ts1 -> SpMore fs ts1 K -> SpMore (f :: fs) (c :: ts) K.
-
-Scheme Sp_mind := Minimality for Sp Sort Prop
-  with SpField_mind := Minimality for SpField Sort Prop
-  with SpMore_mind := Minimality for SpMore Sort Prop.
-Combined Scheme Sp_mutind from Sp_mind, SpField_mind, SpMore_mind.
+Scheme Tr_mind := Minimality for Tr Sort Prop
+  with TrField_mind := Minimality for TrField Sort Prop
+  with TrMore_mind := Minimality for TrMore Sort Prop.
+Combined Scheme Tr_mutind from Tr_mind, TrField_mind, TrMore_mind.
 
 Lemma next_cons t K : K <> [] -> next (t :: K) = K.
 Proof. destruct K; [congruence|reflexivity]. Qed.
 
-Lemma SpPath_nonempty ns ts K : SpPath ns ts K -> K <> [] -> ts <> [].
+Lemma TrPath_nonempty ids ts K : TrPath ids ts K -> K <> [] -> ts <> [].
 Proof. intros H NE. destruct H; [exact NE|discriminate]. Qed.
 
-Lemma Sp_nonempty :
-  (forall s ts K, Sp s ts K -> ts <> []) /\ (forall f ts K, SpField f ts K -> K <> [] -> ts <> []) /\ (forall fs ts K, SpMore fs ts K -> K <> [] -> ts <> []).
+Lemma Tr_nonempty :
+  (forall t ts K, Tr t ts K -> ts <> []) /\ (forall f ts K, TrField f ts K -> K <> [] -> ts <> []) /\ (forall fs ts K, TrMore fs ts K -> K <> [] -> ts <> []).
 Proof.
-  apply Sp_mutind; intros; try discriminate; auto.
+  apply Tr_mutind; intros; try discriminate; auto.
 Qed.
 
 (* the loop of parseIdentOrPath over a spelled path *)
-Lemma path_more_spell : forall ns ts K, SpPath ns ts K -> K <> [] -> kis (cur K) "." = false ->
-  forall n acc, length ns < n -> exists ids, path_more n acc ts = Ok ((acc ++ ids)%list, K) /\ map id_name ids = ns.
+Lemma path_more_spell : forall ids ts K, TrPath ids ts K -> K <> [] -> kis (cur K) "." = false ->
+  forall n acc, length ids < n -> path_more n acc ts = Ok ((acc ++ ids)%list, K).
 Proof.
-  induction 1 as [K|d i ts K ns Hd Hi H IH]; intros NE ND n acc L.
-  - destruct n as [|n]; [lia|]. exists []. cbn [path_more]. rewrite ND, app_nil_r. split; reflexivity.
+  induction 1 as [K|d i ts K ids Hd Hi H IH]; intros NE ND n acc L.
+  - destruct n as [|n]; [lia|]. cbn [path_more]. rewrite ND, app_nil_r. reflexivity.
   - destruct n as [|n]; [cbn in L; lia|]. cbn [length] in L.
-    destruct (IH NE ND n (acc ++ [mk_ident i])%list ltac:(lia)) as (ids & E & M).
-    exists (mk_ident i :: ids). cbn [path_more cur]. rewrite Hd.
-    assert (N1 : ts <> []) by (eapply SpPath_nonempty; eauto).
+    pose proof (IH NE ND n (acc ++ [mk_ident i])%list ltac:(lia)) as E.
+    cbn [path_more cur]. rewrite Hd.
+    assert (N1 : ts <> []) by (eapply TrPath_nonempty; eauto).
     rewrite (next_cons d) by discriminate. unfold parse_ident, expect. cbn [cur]. rewrite Hi. cbn [bind].
-    rewrite (next_cons i _ N1). rewrite E. rewrite <- app_assoc. split; [reflexivity|]. cbn [map]. rewrite M. reflexivity.
+    rewrite (next_cons i _ N1). rewrite E. rewrite <- app_assoc. reflexivity.
 Qed.
 
 Lemma kd t k k' : kis t k = true -> bytes_eqb (bs k) (bs k') = false -> kis t k' = false.
@@ -354,11 +330,11 @@ Proof. unfold type_start. intros ->. rewrite orb_true_r. reflexivity. Qed.
 Lemma type_start_struct t : kis t "STRUCT" = true -> type_start t = true.
 Proof. unfold type_start. intros ->. rewrite orb_true_r. reflexivity. Qed.
 
-Lemma Sp_start :
-  (forall s ts K, Sp s ts K -> type_start (cur ts) = true) /\ (forall f ts K, SpField f ts K -> type_start (cur ts) = true) /\
-  (forall fs ts K, SpMore fs ts K -> True).
+Lemma Tr_start :
+  (forall t ts K, Tr t ts K -> type_start (cur ts) = true) /\ (forall f ts K, TrField f ts K -> type_start (cur ts) = true) /\
+  (forall fs ts K, TrMore fs ts K -> True).
 Proof.
-  apply Sp_mutind; intros; cbn [cur]; auto using type_start_ident, type_start_array, type_start_struct.
+  apply Tr_mutind; intros; cbn [cur]; auto using type_start_ident, type_start_array, type_start_struct.
 Qed.
 
 Lemma type_start_not_gt t : type_start t = true -> kis t ">" || kis t ">>" = false.
@@ -414,62 +390,54 @@ Proof.
   rewrite (close_angle_gt g K G N2). reflexivity.
 Qed.
 
-Definition Acc_ty (s : sty) (ts K : toks) : Prop :=
-  K <> [] -> exists f0, forall f, f0 <= f -> exists t, PT f ts = Ok (t, K) /\ shape t = s.
-Definition Acc_field (fl : option bytes * sty) (ts K : toks) : Prop :=
-  K <> [] -> exists f0, forall f, f0 <= f -> exists x, pfield (PT f) ts = Ok (x, K) /\ shape_field x = fl.
-Definition Acc_more (fs : list (option bytes * sty)) (ts K : toks) : Prop :=
+Definition Acc_ty (t : ty) (ts K : toks) : Prop := K <> [] -> exists f0, forall f, f0 <= f -> PT f ts = Ok (t, K).
+Definition Acc_field (x : option ident * ty) (ts K : toks) : Prop := K <> [] -> exists f0, forall f, f0 <= f -> pfield (PT f) ts = Ok (x, K).
+Definition Acc_more (xs : list (option ident * ty)) (ts K : toks) : Prop :=
   K <> [] -> kis (cur K) "," = false ->
-  exists f0, forall f n acc, f0 <= f -> length fs < n -> exists xs, fields_more (PT f) n acc ts = Ok ((acc ++ xs)%list, K) /\ map shape_field xs = fs.
+  exists f0, forall f n acc, f0 <= f -> length xs < n -> fields_more (PT f) n acc ts = Ok ((acc ++ xs)%list, K).
 
+(* acceptance: every token list of the grammar is parsed, to exactly the tree the grammar assigns to it *)
 Theorem spelled_types_parse :
-  (forall s ts K, Sp s ts K -> Acc_ty s ts K) /\ (forall f ts K, SpField f ts K -> Acc_field f ts K) /\ (forall fs ts K, SpMore fs ts K -> Acc_more fs ts K).
+  (forall t ts K, Tr t ts K -> Acc_ty t ts K) /\ (forall f ts K, TrField f ts K -> Acc_field f ts K) /\ (forall fs ts K, TrMore fs ts K -> Acc_more fs ts K).
 Proof.
-  apply Sp_mutind.
+  apply Tr_mutind.
   - (* simple type *)
-    intros t K nm A B NE. exists 1. intros f L. destruct f as [|f]; [lia|]. exists (TSimple (ppos t) nm). cbn [PT].
-    rewrite (tstep_simple _ _ t K nm A B NE). split; reflexivity.
+    intros t K nm A B NE. exists 1. intros f L. destruct f as [|f]; [lia|]. cbn [PT]. apply (tstep_simple _ _ t K nm A B NE).
   - (* named type *)
-    intros t ts K ns A B HP ND NE. exists (length ns + 2). intros f L. destruct f as [|f]; [lia|].
-    destruct (path_more_spell ns ts K HP NE ND f [mk_ident t] ltac:(lia)) as (ids & E & M).
-    exists (TNamed ([mk_ident t] ++ ids)). cbn [PT]. rewrite (tstep_named _ _ t ts _ K A B (SpPath_nonempty _ _ _ HP NE) E).
-    split; [reflexivity|]. cbn [shape app map]. rewrite M. reflexivity.
+    intros t ts K ids A B HP ND NE. exists (length ids + 2). intros f L. destruct f as [|f]; [lia|].
+    pose proof (path_more_spell ids ts K HP NE ND f [mk_ident t] ltac:(lia)) as E.
+    cbn [PT]. apply (tstep_named _ _ t ts _ K A B (TrPath_nonempty _ _ _ HP NE) E).
   - (* ARRAY< item > *)
     intros a lt ts g K it A B HS IH G NE. destruct (IH ltac:(discriminate)) as [f0 H0]. exists (S f0). intros f L. destruct f as [|f]; [lia|].
-    destruct (H0 f ltac:(lia)) as (t & E & Sh). exists (TArray (ppos a) (ppos g) t). cbn [PT].
-    rewrite (tstep_array _ _ a lt ts t g K A B (proj1 Sp_nonempty _ _ _ HS) NE E G). split; [reflexivity|]. cbn [shape]. rewrite Sh. reflexivity.
+    cbn [PT]. apply (tstep_array _ _ a lt ts it g K A B (proj1 Tr_nonempty _ _ _ HS) NE (H0 f ltac:(lia)) G).
   - (* STRUCT<> *)
-    intros s e K A B NE. exists 1. intros f L. destruct f as [|f]; [lia|]. eexists. cbn [PT]. rewrite (tstep_struct0 _ _ s e K A B NE). split; reflexivity.
+    intros s e K A B NE. exists 1. intros f L. destruct f as [|f]; [lia|]. cbn [PT]. apply (tstep_struct0 _ _ s e K A B NE).
   - (* STRUCT< > *)
-    intros s lt g K A B G NE. exists 1. intros f L. destruct f as [|f]; [lia|]. eexists. cbn [PT]. rewrite (tstep_struct1 _ _ s lt g K A B G NE). split; reflexivity.
+    intros s lt g K A B G NE. exists 1. intros f L. destruct f as [|f]; [lia|]. cbn [PT]. apply (tstep_struct1 _ _ s lt g K A B G NE).
   - (* STRUCT< f1, ... > *)
     intros s lt ts ts1 g K f1 fs A B HF IHF HM IHM G NE.
-    assert (N1 : ts1 <> []) by (apply (proj2 (proj2 Sp_nonempty) _ _ _ HM); discriminate).
-    assert (N0 : ts <> []) by (apply (proj1 (proj2 Sp_nonempty) _ _ _ HF N1)).
+    assert (N1 : ts1 <> []) by (apply (proj2 (proj2 Tr_nonempty) _ _ _ HM); discriminate).
+    assert (N0 : ts <> []) by (apply (proj1 (proj2 Tr_nonempty) _ _ _ HF N1)).
     destruct (IHF N1) as [fa Ha]. destruct (IHM ltac:(discriminate) (kis_diff g ">" "," eq_refl G)) as [fb Hb].
     exists (S (S (fa + fb + length fs))). intros f L. destruct f as [|f]; [lia|].
-    destruct (Ha f ltac:(lia)) as (x & E1 & S1). destruct (Hb f f [x] ltac:(lia) ltac:(lia)) as (xs & E2 & S2).
-    exists (TStruct (ppos s) (ppos g) ([x] ++ xs)). cbn [PT].
-    rewrite (tstep_structn _ _ s lt ts x ts1 _ g K A B N0 NE (proj1 (proj2 Sp_start) _ _ _ HF) E1 E2 G).
-    split; [reflexivity|]. rewrite shape_struct. cbn [app map]. rewrite S1, S2. reflexivity.
+    cbn [PT].
+    apply (tstep_structn _ _ s lt ts f1 ts1 _ g K A B N0 NE (proj1 (proj2 Tr_start) _ _ _ HF) (Ha f ltac:(lia)) (Hb f f [f1] ltac:(lia) ltac:(lia)) G).
   - (* field with a name *)
-    intros n ts K s A TS HS IH NE. destruct (IH NE) as [f0 H0]. exists f0. intros f L. destruct (H0 f L) as (t & E & Sh).
-    exists (Some (mk_ident n), t). unfold pfield. cbn [cur]. rewrite A. rewrite (next_cons _ _ (proj1 Sp_nonempty _ _ _ HS)), TS. cbn [andb].
-    rewrite E. cbn [bind]. split; [reflexivity|]. unfold shape_field. cbn [fst snd option_map]. rewrite Sh. reflexivity.
+    intros n ts K t A TS HS IH NE. destruct (IH NE) as [f0 H0]. exists f0. intros f L.
+    unfold pfield. cbn [cur]. rewrite A. rewrite (next_cons _ _ (proj1 Tr_nonempty _ _ _ HS)), TS. cbn [andb].
+    rewrite (H0 f L). reflexivity.
   - (* field without a name *)
-    intros ts K s HS IH C NE. destruct (IH NE) as [f0 H0]. exists f0. intros f L. destruct (H0 f L) as (t & E & Sh).
-    exists (None, t). unfold pfield. rewrite C, E. cbn [bind]. split; [reflexivity|]. unfold shape_field. cbn [fst snd option_map]. rewrite Sh. reflexivity.
+    intros ts K t HS IH C NE. destruct (IH NE) as [f0 H0]. exists f0. intros f L. unfold pfield. rewrite C, (H0 f L). reflexivity.
   - (* no further field *)
-    intros K NE NC. exists 0. intros f n acc _ L. destruct n as [|n]; [cbn in L; lia|]. exists []. cbn [fields_more]. rewrite NC, app_nil_r. split; reflexivity.
+    intros K NE NC. exists 0. intros f n acc _ L. destruct n as [|n]; [cbn in L; lia|]. cbn [fields_more]. rewrite NC, app_nil_r. reflexivity.
   - (* , field ... *)
     intros c ts ts1 K f1 fs C HF IHF HM IHM NE NC.
-    assert (N1 : ts1 <> []) by (apply (proj2 (proj2 Sp_nonempty) _ _ _ HM NE)).
-    assert (N0 : ts <> []) by (apply (proj1 (proj2 Sp_nonempty) _ _ _ HF N1)).
+    assert (N1 : ts1 <> []) by (apply (proj2 (proj2 Tr_nonempty) _ _ _ HM NE)).
+    assert (N0 : ts <> []) by (apply (proj1 (proj2 Tr_nonempty) _ _ _ HF N1)).
     destruct (IHF N1) as [fa Ha]. destruct (IHM NE NC) as [fb Hb]. exists (fa + fb). intros f n acc L Ln.
     destruct n as [|n]; [cbn in Ln; lia|]. cbn [length] in Ln.
-    destruct (Ha f ltac:(lia)) as (x & E1 & S1). destruct (Hb f n (acc ++ [x])%list ltac:(lia) ltac:(lia)) as (xs & E2 & S2).
-    exists (x :: xs). cbn [fields_more cur]. rewrite C, (next_cons _ _ N0), E1. cbn [bind]. rewrite E2, <- app_assoc.
-    split; [reflexivity|]. cbn [map]. rewrite S1, S2. reflexivity.
+    cbn [fields_more cur]. rewrite C, (next_cons _ _ N0), (Ha f ltac:(lia)). cbn [bind].
+    rewrite (Hb f n (acc ++ [f1])%list ltac:(lia) ltac:(lia)), <- app_assoc. reflexivity.
 Qed.
 
 (* ---------- ">>" is two closing brackets: the parser gives the same answer on the token list in which every ">>" is replaced by
@@ -613,7 +581,7 @@ Proof.
   induction f as [|f IH]; intros ts; [reflexivity|]. cbn [PT]. apply tstep_unfuse. exact IH.
 Qed.
 
-(* ---------- soundness: whatever is accepted is a spelling of its result ---------- *)
+(* ---------- soundness: whatever is accepted is a sentence of the grammar, and the returned tree is the one the grammar assigns ---------- *)
 Definition plain (ts : toks) : Prop := Forall (fun t => kis t ">>" = false) ts.
 Definition last_eof (ts : toks) : Prop := exists pre e, ts = (pre ++ [e])%list /\ kis e K_eof = true.
 
@@ -650,7 +618,7 @@ Proof.
 Qed.
 
 Lemma close_angle_sound ts g r : close_angle ts = Ok (g, r) -> plain ts -> last_eof ts ->
-  exists c, ts = c :: r /\ kis c ">" = true /\ plain r /\ last_eof r.
+  exists c, ts = c :: r /\ kis c ">" = true /\ g = ppos c /\ plain r /\ last_eof r.
 Proof.
   intros H P L. unfold close_angle in H. rewrite (plain_cur _ P) in H.
   destruct (expect ">" ts) as [[t r0]| | |] eqn:E; cbn [bind] in H; inversion H; subst.
@@ -658,7 +626,7 @@ Proof.
 Qed.
 
 Lemma path_more_sound : forall n acc ts ids K, path_more n acc ts = Ok (ids, K) -> plain ts -> last_eof ts ->
-  exists more, ids = (acc ++ more)%list /\ SpPath (map id_name more) ts K /\ kis (cur K) "." = false /\ plain K /\ last_eof K.
+  exists more, ids = (acc ++ more)%list /\ TrPath more ts K /\ kis (cur K) "." = false /\ plain K /\ last_eof K.
 Proof.
   induction n as [|n IH]; intros acc ts ids K H P L; [discriminate|]. cbn [path_more] in H.
   destruct (kis (cur ts) ".") eqn:D.
@@ -668,28 +636,28 @@ Proof.
     destruct (consume' r K_ident Lr KI eq_refl) as (i & r2 & -> & En2 & Lr2). cbn [cur] in *. rewrite En2 in H.
     destruct (IH _ _ _ _ H (plain_tl _ _ (plain_tl _ _ P)) Lr2) as (more & -> & SP & ND & PK & LK).
     exists (mk_ident i :: more). rewrite <- app_assoc. split; [reflexivity|]. split; [|auto].
-    cbn [map]. apply (SpPCons d i); auto.
+    apply (TrPCons d i); auto.
   - inversion H; subst. exists []. rewrite app_nil_r. split; [reflexivity|]. split; [constructor|auto].
 Qed.
 
 Definition sound (pt : toks -> res (ty * toks)) : Prop :=
-  forall ts t K, pt ts = Ok (t, K) -> plain ts -> last_eof ts -> Sp (shape t) ts K /\ plain K /\ last_eof K.
+  forall ts t K, pt ts = Ok (t, K) -> plain ts -> last_eof ts -> Tr t ts K /\ plain K /\ last_eof K.
 
 Lemma pfield_sound pt ts x K : sound pt -> pfield pt ts = Ok (x, K) -> plain ts -> last_eof ts ->
-  SpField (shape_field x) ts K /\ plain K /\ last_eof K.
+  TrField x ts K /\ plain K /\ last_eof K.
 Proof.
   intros S H P L. unfold pfield in H. destruct (kis (cur ts) K_ident && type_start (cur (next ts))) eqn:C.
   - apply andb_true_iff in C as [C1 C2].
     destruct (consume' ts K_ident L C1 eq_refl) as (c & r & -> & En & Lr). cbn [cur] in *. rewrite En in *.
     destruct (pt r) as [[t r1]| | |] eqn:E; cbn [bind] in H; inversion H; subst.
     destruct (S _ _ _ E (plain_tl _ _ P) Lr) as (SP & PK & LK). split; [|auto].
-    unfold shape_field. cbn [fst snd option_map]. apply (SpFNamed c); auto.
+    apply (TrFNamed c); auto.
   - destruct (pt ts) as [[t r]| | |] eqn:E; cbn [bind] in H; inversion H; subst.
-    destruct (S _ _ _ E P L) as (SP & PK & LK). split; [|auto]. unfold shape_field. cbn [fst snd option_map]. apply SpFAnon; auto.
+    destruct (S _ _ _ E P L) as (SP & PK & LK). split; [|auto]. apply TrFAnon; auto.
 Qed.
 
 Lemma fields_more_sound pt : sound pt -> forall n acc ts fs K, fields_more pt n acc ts = Ok (fs, K) -> plain ts -> last_eof ts ->
-  exists more, fs = (acc ++ more)%list /\ SpMore (map shape_field more) ts K /\ kis (cur K) "," = false /\ plain K /\ last_eof K.
+  exists more, fs = (acc ++ more)%list /\ TrMore more ts K /\ kis (cur K) "," = false /\ plain K /\ last_eof K.
 Proof.
   intros S. induction n as [|n IH]; intros acc ts fs K H P L; [discriminate|]. cbn [fields_more] in H.
   destruct (kis (cur ts) ",") eqn:D.
@@ -698,7 +666,7 @@ Proof.
     destruct (pfield_sound pt _ _ _ S E (plain_tl _ _ P) Lr) as (SF & P1 & L1).
     destruct (IH _ _ _ _ H P1 L1) as (more & -> & SM & NC & PK & LK).
     exists (fl :: more). rewrite <- app_assoc. split; [reflexivity|]. split; [|auto].
-    cbn [map]. apply (SpMCons c r ts1); auto.
+    apply (TrMCons c r ts1); auto.
   - inversion H; subst. exists []. rewrite app_nil_r. split; [reflexivity|]. split; [constructor|auto].
 Qed.
 
@@ -708,10 +676,10 @@ Proof.
   destruct (kis (cur ts) K_ident) eqn:KI.
   { destruct (consume' ts K_ident L KI eq_refl) as (c & r & -> & En & Lr). cbn [cur] in *. rewrite En in H. pose proof (plain_tl _ _ P) as Pr.
     destruct (simple_name c) as [nm|] eqn:SN.
-    - inversion H; subst. split; [|auto]. apply SpSimple; auto.
+    - inversion H; subst. split; [|auto]. apply TrSimple; auto.
     - destruct (path_more n [mk_ident c] r) as [[ids r1]| | |] eqn:E; cbn [bind] in H; inversion H; subst.
       destruct (path_more_sound _ _ _ _ _ E Pr Lr) as (more & -> & SP & ND & PK & LK). split; [|auto].
-      cbn [shape app map]. apply (SpNamed c); auto. }
+      cbn [app]. apply (TrNamed c); auto. }
   destruct (kis (cur ts) "ARRAY") eqn:KA.
   { destruct (consume' ts "ARRAY" L KA eq_refl) as (c & r & -> & En & Lr). cbn [cur] in *. rewrite En in H. pose proof (plain_tl _ _ P) as Pr.
     destruct (expect "<" r) as [[x ts1]| | |] eqn:E1; cbn [bind] in H; try discriminate.
@@ -719,30 +687,103 @@ Proof.
     destruct (close_angle ts2) as [[g ts3]| | |] eqn:E3; cbn [bind] in H; inversion H; subst.
     apply expect_sound in E1 as (-> & A2 & A3 & A4); [|reflexivity|exact Pr|exact Lr].
     destruct (S _ _ _ E2 A3 A4) as (SP & P2 & L2).
-    apply close_angle_sound in E3 as (gt & -> & B2 & B3 & B4); auto. split; [|auto].
-    cbn [shape]. apply (SpArray c x ts1 gt); auto. }
+    apply close_angle_sound in E3 as (gt & -> & B2 & -> & B3 & B4); auto. split; [|auto].
+    apply (TrArray c x ts1 gt); auto. }
   destruct (kis (cur ts) "STRUCT") eqn:KS; [|discriminate].
   destruct (consume' ts "STRUCT" L KS eq_refl) as (c & r & -> & En & Lr). cbn [cur] in KI, KA, KS, H. rewrite En in H. pose proof (plain_tl _ _ P) as Pr.
   destruct (kis (cur r) "<>") eqn:KE.
   { inversion H; subst. destruct (consume' r "<>" Lr KE eq_refl) as (e & r2 & -> & En2 & Lr2). rewrite En2. split; [|split; [apply (plain_tl _ _ Pr)|exact Lr2]].
-    rewrite shape_struct. apply SpStruct0; auto. }
+    apply TrStruct0; auto. }
   destruct (kis (cur r) "<") eqn:KL; cbn [negb] in H; [|discriminate].
   destruct (consume' r "<" Lr KL eq_refl) as (lt & r2 & -> & En2 & Lr2). cbn [cur] in KE, KL. rewrite En2 in H. pose proof (plain_tl _ _ Pr) as P2.
   destruct (kis (cur r2) ">" || kis (cur r2) ">>") eqn:KG.
   - cbn [bind] in H. destruct (close_angle r2) as [[g ts4]| | |] eqn:E3; cbn [bind] in H; inversion H; subst.
-    apply close_angle_sound in E3 as (gt & -> & B2 & B3 & B4); auto. split; [|auto].
-    rewrite shape_struct. apply SpStruct1; auto.
+    apply close_angle_sound in E3 as (gt & -> & B2 & -> & B3 & B4); auto. split; [|auto].
+    apply TrStruct1; auto.
   - destruct (pfield pt r2) as [[f1 ts3]| | |] eqn:E2; cbn [bind] in H; try discriminate.
     destruct (fields_more pt n [f1] ts3) as [[fs ts4]| | |] eqn:E3; cbn [bind] in H; try discriminate.
     destruct (close_angle ts4) as [[g ts5]| | |] eqn:E4; cbn [bind] in H; inversion H; subst.
     destruct (pfield_sound pt _ _ _ S E2 P2 Lr2) as (SF & P3 & L3).
     destruct (fields_more_sound pt S _ _ _ _ _ E3 P3 L3) as (more & -> & SM & NC & P4 & L4).
-    apply close_angle_sound in E4 as (gt & -> & B2 & B3 & B4); auto. split; [|auto].
-    rewrite shape_struct. cbn [app map].
-    apply (SpStructN c lt r2 ts3 gt); auto.
+    apply close_angle_sound in E4 as (gt & -> & B2 & -> & B3 & B4); auto. split; [|auto].
+    cbn [app].
+    apply (TrStructN c lt r2 ts3 gt); auto.
 Qed.
 
 Theorem parsed_types_are_spelled : forall f, sound (PT f).
 Proof.
   induction f as [|f IH]; intros ts t K H; [discriminate|]. cbn [PT] in H. revert H. apply tstep_sound. exact IH.
 Qed.
+
+(* ---------- the entry point ParseType ---------- *)
+Lemma unfuse_nil r : unfuse r = [] -> r = [].
+Proof. destruct r as [|t r]; [reflexivity|]. cbn [unfuse]. destruct (kis t ">>"); discriminate. Qed.
+
+Lemma unfuse_single r e : unfuse r = [e] -> r = [e].
+Proof.
+  destruct r as [|t r]; [discriminate|]. cbn [unfuse]. destruct (kis t ">>"); [discriminate|].
+  intros H. inversion H as [[A B]]. apply unfuse_nil in B. subst. reflexivity.
+Qed.
+
+Lemma unfuse_app a b : unfuse (a ++ b) = (unfuse a ++ unfuse b)%list.
+Proof. induction a as [|t a IH]; [reflexivity|]. cbn [app unfuse]. rewrite IH. destruct (kis t ">>"); reflexivity. Qed.
+
+Lemma plain_unfuse ts : plain (unfuse ts).
+Proof.
+  induction ts as [|t r IH]; [constructor|]. cbn [unfuse]. destruct (kis t ">>") eqn:G.
+  - constructor; [reflexivity|]. constructor; [reflexivity|exact IH].
+  - constructor; [exact G|exact IH].
+Qed.
+
+Lemma last_eof_unfuse ts : last_eof ts -> last_eof (unfuse ts).
+Proof.
+  intros (pre & e & -> & E). exists (unfuse pre), e. split; [|exact E]. rewrite unfuse_app. cbn [unfuse]. rewrite (kd _ _ ">>" E eq_refl). reflexivity.
+Qed.
+
+Lemma parse_type_fuel ts : PT (type_fuel ts) ts <> Fuel.
+Proof. unfold type_fuel. replace (2 * length ts + 2) with (S (2 * length ts + 1)) by lia. apply PT_total. lia. Qed.
+
+Lemma PT_at_entry f ts r : PT f ts = Ok r -> PT (type_fuel ts) ts = Ok r.
+Proof.
+  intros H. destruct (Nat.le_ge_cases f (type_fuel ts)) as [L|L].
+  - rewrite (PT_mono f _ ts L); [exact H|congruence].
+  - rewrite <- (PT_mono _ f ts L (parse_type_fuel ts)). exact H.
+Qed.
+
+(* every token list that, with ">>" read as two closing brackets, is a type of the grammar followed by the end of input is accepted
+   by the entry point, and the result is exactly the tree the grammar assigns (every position included) *)
+Theorem parse_type_accepts : forall t ts e, kis e K_eof = true -> Tr t (unfuse ts) [e] -> parse_type ts = Ok (t, [e]).
+Proof.
+  intros t ts e E H. destruct (proj1 spelled_types_parse _ _ _ H ltac:(discriminate)) as [f0 Hf].
+  pose proof (Hf f0 (le_n _)) as EP. rewrite PT_unfuse in EP.
+  destruct (PT f0 ts) as [[t' r]| | |] eqn:EQ; cbn [rmapU] in EP; try discriminate.
+  injection EP as E1 E2. subst t'. apply unfuse_single in E2. subst r.
+  unfold parse_type. rewrite (PT_at_entry _ _ _ EQ). cbn [bind cur]. rewrite E. reflexivity.
+Qed.
+
+(* and nothing else is: an accepted token list is a sentence of the grammar, and the returned tree is the grammar's *)
+Theorem parse_type_sound : forall ts t r, last_eof ts -> parse_type ts = Ok (t, r) ->
+  Tr t (unfuse ts) (unfuse r) /\ kis (cur r) K_eof = true.
+Proof.
+  intros ts t r L H. unfold parse_type in H. destruct (PT (type_fuel ts) ts) as [[t' r']| | |] eqn:EQ; cbn [bind] in H; try discriminate.
+  destruct (kis (cur r') K_eof) eqn:E; inversion H; subst. split; [|exact E].
+  assert (EU : PT (type_fuel ts) (unfuse ts) = Ok (t, unfuse r)) by (rewrite PT_unfuse, EQ; reflexivity).
+  apply (parsed_types_are_spelled _ _ _ _ EU (plain_unfuse ts) (last_eof_unfuse ts L)).
+Qed.
+
+(* the entry point never runs out of fuel: the model of ParseType is a total function with an explicit bound on its recursion *)
+Theorem parse_type_total : forall ts, parse_type ts <> Fuel.
+Proof.
+  intros ts. unfold parse_type. pose proof (parse_type_fuel ts) as NF.
+  destruct (PT (type_fuel ts) ts) as [[t r]| | |]; cbn [bind]; try discriminate; [|congruence]. destruct (kis (cur r) K_eof); discriminate.
+Qed.
+
+(* non-vacuity: ARRAY<STRUCT<a ARRAY<INT64>>> with the three closing brackets lexed as ">>" ">" *)
+Example nested_closers :
+  let tkz (k : String.string) (p : Z) (n : Z) := {| pk := bs k; praw := bs k; pstr := []; ppos := p; pend := (p + n)%Z; pbase := 0 |} in
+  let idz (s : String.string) (p : Z) := {| pk := bs K_ident; praw := bs s; pstr := bs s; ppos := p; pend := (p + Z.of_nat (String.length s))%Z; pbase := 0 |} in
+  let ts := [tkz "ARRAY"%string 0 5; tkz "<"%string 5 1; tkz "STRUCT"%string 6 6; tkz "<"%string 12 1; idz "a"%string 13; tkz "ARRAY"%string 15 5; tkz "<"%string 20 1; idz "INT64"%string 21;
+             tkz ">>"%string 26 2; tkz ">"%string 28 1; tkz K_eof 29 0]%Z in
+  exists e, parse_type ts =
+    Ok (TArray 0 28 (TStruct 6 27 [(Some {| id_pos := 13; id_end := 14; id_name := bs "a" |}, TArray 15 26 (TSimple 21 (bs "INT64")))]), [e])%Z.
+Proof. eexists. vm_compute. reflexivity. Qed.
